@@ -2,6 +2,8 @@
 //! on generated cases and writes `op input result` lines for the extracted Coq model to check.
 //! usage: dbg-harness <property> <seed> <quick|thorough> <shard> <nshards> <outfile>
 mod c01;
+mod c07;
+mod c08;
 mod c11;
 mod c12;
 mod gen;
@@ -53,6 +55,8 @@ fn main() {
         "C18" => seqs::c18(&mut out, &mut rng, &tier),
         "C19" => c19::c19(&mut out, &mut rng, &tier),
         "C16" => c16::c16(&mut out, &mut rng, &tier),
+        "C07" => c07::c07(&mut out, &mut rng, &tier),
+        "C08" => c08::c08(&mut out, &mut rng, &tier),
         _ => {
             eprintln!("unknown property {}", prop);
             std::process::exit(2);
